@@ -5,130 +5,130 @@ namespace LlgoVerif.Gen.C19
 open LlgoVerif.PyGuard
 
 def progs : List GenProg := [
-  -- program c19s0p20971
+  -- program c19s0p16741
   { main := 19,
     entry := [.pyInitialize, .rtInit, .runtimeInit, .mainInit, .mainMain],
-    calls := [(16, .call (2, 0)), (16, .var (2, 2)), (16, .var (2, 3)), (16, .var (2, 4)), (16, .var (2, 5)), (16, .call (2, 1)), (16, .call (3, 0)), (16, .var (3, 2)), (16, .var (3, 3)), (16, .var (3, 4)), (16, .var (3, 5)), (16, .call (3, 1)), (16, .explicitImport 0), (16, .explicitImport 1), (17, .call (1, 0)), (17, .var (1, 2)), (17, .var (1, 3)), (17, .var (1, 4)), (17, .var (1, 5)), (17, .call (1, 1)), (17, .call (3, 0)), (17, .var (3, 2)), (17, .var (3, 3)), (17, .var (3, 4)), (17, .var (3, 5)), (17, .call (3, 1)), (17, .explicitImport 0), (17, .explicitImport 1), (18, .call (3, 0)), (18, .var (3, 2)), (18, .var (3, 3)), (18, .var (3, 4)), (18, .var (3, 5)), (18, .call (3, 1)), (18, .explicitImport 0), (18, .explicitImport 1), (19, .call (0, 0)), (19, .var (0, 2)), (19, .var (0, 3)), (19, .var (0, 4)), (19, .var (0, 5)), (19, .call (0, 1)), (19, .call (1, 0)), (19, .var (1, 2)), (19, .var (1, 3)), (19, .var (1, 4)), (19, .var (1, 5)), (19, .call (1, 1)), (19, .call (2, 0)), (19, .var (2, 2)), (19, .var (2, 3)), (19, .var (2, 4)), (19, .var (2, 5)), (19, .call (2, 1)), (19, .call (3, 0)), (19, .var (3, 2)), (19, .var (3, 3)), (19, .var (3, 4)), (19, .var (3, 5)), (19, .call (3, 1)), (19, .call (3, 0)), (19, .var (3, 2)), (19, .var (3, 3)), (19, .var (3, 4)), (19, .var (3, 5)), (19, .call (3, 1)), (19, .explicitImport 0), (19, .explicitImport 1)],
+    calls := [(16, .call (2, 1)), (16, .var (2, 2)), (16, .var (2, 3)), (16, .var (2, 4)), (16, .var (2, 5)), (16, .call (2, 0)), (16, .call (3, 1)), (16, .var (3, 2)), (16, .var (3, 3)), (16, .var (3, 4)), (16, .var (3, 5)), (16, .call (3, 0)), (16, .explicitImport 0), (16, .explicitImport 1), (17, .call (1, 1)), (17, .var (1, 2)), (17, .var (1, 3)), (17, .var (1, 4)), (17, .var (1, 5)), (17, .call (1, 0)), (17, .call (3, 1)), (17, .var (3, 2)), (17, .var (3, 3)), (17, .var (3, 4)), (17, .var (3, 5)), (17, .call (3, 0)), (17, .explicitImport 0), (17, .explicitImport 1), (18, .call (3, 1)), (18, .var (3, 2)), (18, .var (3, 3)), (18, .var (3, 4)), (18, .var (3, 5)), (18, .call (3, 0)), (18, .explicitImport 0), (18, .explicitImport 1), (19, .call (0, 1)), (19, .var (0, 2)), (19, .var (0, 3)), (19, .var (0, 4)), (19, .var (0, 5)), (19, .call (0, 0)), (19, .call (1, 1)), (19, .var (1, 2)), (19, .var (1, 3)), (19, .var (1, 4)), (19, .var (1, 5)), (19, .call (1, 0)), (19, .call (2, 1)), (19, .var (2, 2)), (19, .var (2, 3)), (19, .var (2, 4)), (19, .var (2, 5)), (19, .call (2, 0)), (19, .call (3, 1)), (19, .var (3, 2)), (19, .var (3, 3)), (19, .var (3, 4)), (19, .var (3, 5)), (19, .call (3, 0)), (19, .call (3, 1)), (19, .var (3, 2)), (19, .var (3, 3)), (19, .var (3, 4)), (19, .var (3, 5)), (19, .call (3, 0)), (19, .explicitImport 0), (19, .explicitImport 1)],
     facts := [
-      -- c19s0p20971/vio
+      -- c19s0p16741/vio
       { id := 0,
         toks := [.guardTest, .guardStore, .ret],
         inits := [], loadGroups := [],
         initUses := [],
         imp := none, fnUses := [], intrinsics := false },
-      -- c19s0p20971/bh
+      -- c19s0p16741/bh
       { id := 1,
         toks := [.guardTest, .guardStore, .guardedImport 4, .ret],
         inits := [], loadGroups := [],
         initUses := [],
         imp := some 4, fnUses := [], intrinsics := false },
-      -- c19s0p20971/bops
+      -- c19s0p16741/bops
       { id := 2,
         toks := [.guardTest, .guardStore, .guardedImport 5, .ret],
         inits := [], loadGroups := [],
         initUses := [],
         imp := some 5, fnUses := [], intrinsics := false },
-      -- c19s0p20971/bblt
+      -- c19s0p16741/bblt
       { id := 3,
         toks := [.guardTest, .guardStore, .guardedImport 6, .ret],
         inits := [], loadGroups := [],
         initUses := [],
         imp := some 6, fnUses := [], intrinsics := false },
-      -- c19s0p20971/bmath
+      -- c19s0p16741/bmath
       { id := 4,
         toks := [.guardTest, .guardStore, .guardedImport 7, .ret],
         inits := [], loadGroups := [],
         initUses := [],
         imp := some 7, fnUses := [], intrinsics := false },
-      -- c19s0p20971/bsig
+      -- c19s0p16741/bsig
       { id := 5,
         toks := [.guardTest, .guardStore, .guardedImport 4, .ret],
         inits := [], loadGroups := [],
         initUses := [],
         imp := some 4, fnUses := [], intrinsics := false },
-      -- c19s0p20971/bsig2
+      -- c19s0p16741/bsig2
       { id := 6,
         toks := [.guardTest, .guardStore, .guardedImport 4, .ret],
         inits := [], loadGroups := [],
         initUses := [],
         imp := some 4, fnUses := [], intrinsics := false },
-      -- c19s0p20971/b0
+      -- c19s0p16741/b0
       { id := 7,
         toks := [.guardTest, .guardStore, .guardedImport 0, .ret],
         inits := [], loadGroups := [],
         initUses := [],
         imp := some 0, fnUses := [], intrinsics := false },
-      -- c19s0p20971/b1
+      -- c19s0p16741/b1
       { id := 8,
         toks := [.guardTest, .guardStore, .guardedImport 1, .ret],
         inits := [], loadGroups := [],
         initUses := [],
         imp := some 1, fnUses := [], intrinsics := false },
-      -- c19s0p20971/b2
+      -- c19s0p16741/b2
       { id := 9,
         toks := [.guardTest, .guardStore, .guardedImport 2, .ret],
         inits := [], loadGroups := [],
         initUses := [],
         imp := some 2, fnUses := [], intrinsics := false },
-      -- c19s0p20971/b3
+      -- c19s0p16741/b3
       { id := 10,
         toks := [.guardTest, .guardStore, .guardedImport 3, .ret],
         inits := [], loadGroups := [],
         initUses := [],
         imp := some 3, fnUses := [], intrinsics := false },
-      -- c19s0p20971/b3x
+      -- c19s0p16741/b3x
       { id := 11,
         toks := [.guardTest, .guardStore, .guardedImport 3, .ret],
         inits := [], loadGroups := [],
         initUses := [],
         imp := some 3, fnUses := [], intrinsics := false },
-      -- c19s0p20971/vdump
+      -- c19s0p16741/vdump
       { id := 12,
         toks := [.guardTest, .guardStore, .callInit 0, .ret],
         inits := [0], loadGroups := [],
         initUses := [],
         imp := none, fnUses := [], intrinsics := false },
-      -- c19s0p20971/vsig
+      -- c19s0p16741/vsig
       { id := 13,
         toks := [.guardTest, .guardStore, .callInit 5, .callInit 6, .loadSyms 4 [0, 1, 2, 3, 4, 5, 6, 7, 8, 9, 10, 11, 12, 13, 14, 15, 16, 17, 18, 19, 20, 21, 22, 23, 24, 25, 26, 27, 28, 29, 30, 31, 32, 33, 34, 35, 36, 37, 38, 39, 40, 41, 42, 43, 44, 45, 46, 47, 48, 49, 50, 51, 52, 53, 54, 55, 56, 57, 58, 59, 60, 61, 62, 63, 64, 65, 66, 67, 68, 69], .ret],
         inits := [5, 6], loadGroups := [(4, [0, 1, 2, 3, 4, 5, 6, 7, 8, 9, 10, 11, 12, 13, 14, 15, 16, 17, 18, 19, 20, 21, 22, 23, 24, 25, 26, 27, 28, 29, 30, 31, 32, 33, 34, 35, 36, 37, 38, 39, 40, 41, 42, 43, 44, 45, 46, 47, 48, 49, 50, 51, 52, 53, 54, 55, 56, 57, 58, 59, 60, 61, 62, 63, 64, 65, 66, 67, 68, 69])],
         initUses := [],
         imp := none, fnUses := [.call (4, 0), .call (4, 1), .call (4, 12), .call (4, 23), .call (4, 34), .call (4, 45), .call (4, 56), .call (4, 67), .call (4, 68), .call (4, 69), .call (4, 2), .call (4, 3), .call (4, 4), .call (4, 5), .call (4, 6), .call (4, 7), .call (4, 8), .call (4, 9), .call (4, 10), .call (4, 11), .call (4, 13), .call (4, 14), .call (4, 15), .call (4, 16), .call (4, 17), .call (4, 18), .call (4, 19), .call (4, 20), .call (4, 21), .call (4, 22), .call (4, 24), .call (4, 25), .call (4, 26), .call (4, 27), .call (4, 28), .call (4, 29), .call (4, 30), .call (4, 31), .call (4, 32), .call (4, 33), .call (4, 35), .call (4, 36), .call (4, 37), .call (4, 38), .call (4, 39), .call (4, 40), .call (4, 41), .call (4, 42), .call (4, 43), .call (4, 44), .call (4, 46), .call (4, 47), .call (4, 48), .call (4, 49), .call (4, 50), .call (4, 51), .call (4, 52), .call (4, 53), .call (4, 54), .call (4, 55), .call (4, 57), .call (4, 58), .call (4, 59), .call (4, 60), .call (4, 61), .call (4, 62), .call (4, 63), .call (4, 64), .call (4, 65), .call (4, 66)], intrinsics := false },
-      -- c19s0p20971/vsa
+      -- c19s0p16741/vsa
       { id := 14,
         toks := [.guardTest, .guardStore, .callInit 5, .loadSyms 4 [70, 71, 72, 73, 74, 75, 76, 77], .ret],
         inits := [5], loadGroups := [(4, [70, 71, 72, 73, 74, 75, 76, 77])],
         initUses := [],
         imp := none, fnUses := [.call (4, 70), .call (4, 71), .call (4, 72), .call (4, 73), .call (4, 74), .call (4, 75), .call (4, 76), .call (4, 77)], intrinsics := false },
-      -- c19s0p20971/vsb
+      -- c19s0p16741/vsb
       { id := 15,
         toks := [.guardTest, .guardStore, .callInit 5, .loadSyms 4 [70, 71, 72, 73, 74, 75, 76, 77], .ret],
         inits := [5], loadGroups := [(4, [70, 71, 72, 73, 74, 75, 76, 77])],
         initUses := [],
         imp := none, fnUses := [.call (4, 70), .call (4, 71), .call (4, 72), .call (4, 73), .call (4, 74), .call (4, 75), .call (4, 76), .call (4, 77)], intrinsics := false },
-      -- c19s0p20971/u1
+      -- c19s0p16741/u1
       { id := 16,
-        toks := [.guardTest, .guardStore, .callInit 9, .callInit 10, .callInit 1, .callInit 12, .use (.call (2, 0)), .use (.call (3, 0)), .use (.explicitImport 1), .use (.call (4, 78)), .loadSyms 4 [79, 78], .loadSyms 2 [1, 0], .loadSyms 3 [1, 0], .ret],
-        inits := [9, 10, 1, 12], loadGroups := [(4, [79, 78]), (2, [1, 0]), (3, [1, 0])],
-        initUses := [.call (2, 0), .call (3, 0), .explicitImport 1, .call (4, 78)],
-        imp := none, fnUses := [.call (2, 0), .var (2, 2), .call (4, 79), .var (2, 3), .var (2, 4), .var (2, 5), .call (2, 1), .call (3, 0), .var (3, 2), .var (3, 3), .var (3, 4), .var (3, 5), .call (3, 1), .explicitImport 0, .call (4, 78), .explicitImport 1], intrinsics := false },
-      -- c19s0p20971/u2
+        toks := [.guardTest, .guardStore, .callInit 9, .callInit 10, .callInit 1, .callInit 12, .loadSyms 4 [78, 79], .loadSyms 2 [0, 1], .loadSyms 3 [0, 1], .use (.call (2, 1)), .use (.call (3, 1)), .use (.explicitImport 1), .use (.call (4, 79)), .ret],
+        inits := [9, 10, 1, 12], loadGroups := [(4, [78, 79]), (2, [0, 1]), (3, [0, 1])],
+        initUses := [.call (2, 1), .call (3, 1), .explicitImport 1, .call (4, 79)],
+        imp := none, fnUses := [.call (2, 1), .var (2, 2), .call (4, 78), .var (2, 3), .var (2, 4), .var (2, 5), .call (2, 0), .call (3, 1), .var (3, 2), .var (3, 3), .var (3, 4), .var (3, 5), .call (3, 0), .explicitImport 0, .call (4, 79), .explicitImport 1], intrinsics := false },
+      -- c19s0p16741/u2
       { id := 17,
-        toks := [.guardTest, .guardStore, .callInit 8, .callInit 11, .callInit 1, .callInit 12, .use (.call (1, 0)), .use (.call (3, 0)), .loadSyms 4 [79, 78], .loadSyms 1 [1, 0], .loadSyms 3 [1, 0], .ret],
-        inits := [8, 11, 1, 12], loadGroups := [(4, [79, 78]), (1, [1, 0]), (3, [1, 0])],
-        initUses := [.call (1, 0), .call (3, 0)],
-        imp := none, fnUses := [.call (1, 0), .var (1, 2), .call (4, 79), .var (1, 3), .var (1, 4), .var (1, 5), .call (1, 1), .call (3, 0), .var (3, 2), .var (3, 3), .var (3, 4), .var (3, 5), .call (3, 1), .explicitImport 0, .call (4, 78), .explicitImport 1], intrinsics := false },
-      -- c19s0p20971/u3
+        toks := [.guardTest, .guardStore, .callInit 8, .callInit 11, .callInit 1, .callInit 12, .loadSyms 4 [78, 79], .loadSyms 1 [0, 1], .loadSyms 3 [0, 1], .use (.call (1, 1)), .use (.call (3, 1)), .ret],
+        inits := [8, 11, 1, 12], loadGroups := [(4, [78, 79]), (1, [0, 1]), (3, [0, 1])],
+        initUses := [.call (1, 1), .call (3, 1)],
+        imp := none, fnUses := [.call (1, 1), .var (1, 2), .call (4, 78), .var (1, 3), .var (1, 4), .var (1, 5), .call (1, 0), .call (3, 1), .var (3, 2), .var (3, 3), .var (3, 4), .var (3, 5), .call (3, 0), .explicitImport 0, .call (4, 79), .explicitImport 1], intrinsics := false },
+      -- c19s0p16741/u3
       { id := 18,
-        toks := [.guardTest, .guardStore, .callInit 10, .callInit 1, .callInit 12, .use (.call (3, 0)), .loadSyms 4 [79, 78], .loadSyms 3 [1, 0], .ret],
-        inits := [10, 1, 12], loadGroups := [(4, [79, 78]), (3, [1, 0])],
-        initUses := [.call (3, 0)],
-        imp := none, fnUses := [.call (3, 0), .var (3, 2), .call (4, 79), .var (3, 3), .var (3, 4), .var (3, 5), .call (3, 1), .explicitImport 0, .call (4, 78), .explicitImport 1], intrinsics := false },
-      -- c19s0p20971
+        toks := [.guardTest, .guardStore, .callInit 10, .callInit 1, .callInit 12, .loadSyms 4 [78, 79], .loadSyms 3 [0, 1], .use (.call (3, 1)), .ret],
+        inits := [10, 1, 12], loadGroups := [(4, [78, 79]), (3, [0, 1])],
+        initUses := [.call (3, 1)],
+        imp := none, fnUses := [.call (3, 1), .var (3, 2), .call (4, 78), .var (3, 3), .var (3, 4), .var (3, 5), .call (3, 0), .explicitImport 0, .call (4, 79), .explicitImport 1], intrinsics := false },
+      -- c19s0p16741
       { id := 19,
-        toks := [.guardTest, .guardStore, .callInit 1, .callInit 12, .callInit 0, .callInit 3, .callInit 4, .callInit 2, .callInit 16, .callInit 17, .callInit 18, .callInit 14, .callInit 15, .callInit 13, .callInit 7, .callInit 8, .callInit 9, .callInit 10, .callInit 11, .use (.call (0, 0)), .loadSyms 6 [0, 1, 2, 3, 4, 5, 6, 7, 8], .loadSyms 7 [0, 1, 2, 3, 4, 5, 6, 7], .loadSyms 5 [0, 1, 2, 3, 4, 5, 6, 7, 8], .loadSyms 4 [80, 81, 82, 83, 84, 85, 86, 87, 88, 89, 90, 79, 78, 91], .loadSyms 0 [1, 0], .loadSyms 1 [1, 0], .loadSyms 2 [1, 0], .loadSyms 3 [1, 0], .ret],
-        inits := [1, 12, 0, 3, 4, 2, 16, 17, 18, 14, 15, 13, 7, 8, 9, 10, 11], loadGroups := [(6, [0, 1, 2, 3, 4, 5, 6, 7, 8]), (7, [0, 1, 2, 3, 4, 5, 6, 7]), (5, [0, 1, 2, 3, 4, 5, 6, 7, 8]), (4, [80, 81, 82, 83, 84, 85, 86, 87, 88, 89, 90, 79, 78, 91]), (0, [1, 0]), (1, [1, 0]), (2, [1, 0]), (3, [1, 0])],
-        initUses := [.call (0, 0)],
-        imp := none, fnUses := [.call (0, 0), .var (0, 2), .call (4, 79), .var (0, 3), .var (0, 4), .var (0, 5), .call (0, 1), .call (1, 0), .var (1, 2), .var (1, 3), .var (1, 4), .var (1, 5), .call (1, 1), .call (2, 0), .var (2, 2), .var (2, 3), .var (2, 4), .var (2, 5), .call (2, 1), .call (3, 0), .var (3, 2), .var (3, 3), .var (3, 4), .var (3, 5), .call (3, 1), .explicitImport 0, .call (4, 78), .explicitImport 1, .call (4, 83), .call (4, 84), .call (4, 85), .call (4, 86), .call (4, 87), .call (4, 88), .call (4, 89), .call (5, 7), .call (4, 90), .call (5, 8), .call (5, 0), .call (5, 2), .call (5, 4), .call (5, 1), .call (5, 6), .call (5, 5), .call (5, 3), .call (6, 5), .call (6, 1), .call (6, 2), .call (6, 0), .call (6, 6), .call (6, 3), .call (6, 7), .call (6, 4), .call (6, 8), .call (7, 3), .call (7, 0), .call (7, 1), .call (7, 7), .call (7, 2), .call (7, 4), .call (7, 5), .call (7, 6), .call (4, 80), .call (4, 91), .call (4, 81), .call (4, 82)], intrinsics := false }] }]
+        toks := [.guardTest, .guardStore, .callInit 1, .callInit 12, .callInit 0, .callInit 3, .callInit 4, .callInit 2, .callInit 16, .callInit 17, .callInit 18, .callInit 14, .callInit 15, .callInit 13, .callInit 7, .callInit 8, .callInit 9, .callInit 10, .callInit 11, .loadSyms 6 [0, 1, 2, 3, 4, 5, 6, 7, 8], .loadSyms 7 [0, 1, 2, 3, 4, 5, 6, 7], .loadSyms 5 [0, 1, 2, 3, 4, 5, 6, 7, 8], .loadSyms 4 [80, 81, 82, 83, 84, 85, 86, 87, 88, 89, 90, 78, 79, 91], .loadSyms 0 [0, 1], .loadSyms 1 [0, 1], .loadSyms 2 [0, 1], .loadSyms 3 [0, 1], .use (.call (0, 1)), .ret],
+        inits := [1, 12, 0, 3, 4, 2, 16, 17, 18, 14, 15, 13, 7, 8, 9, 10, 11], loadGroups := [(6, [0, 1, 2, 3, 4, 5, 6, 7, 8]), (7, [0, 1, 2, 3, 4, 5, 6, 7]), (5, [0, 1, 2, 3, 4, 5, 6, 7, 8]), (4, [80, 81, 82, 83, 84, 85, 86, 87, 88, 89, 90, 78, 79, 91]), (0, [0, 1]), (1, [0, 1]), (2, [0, 1]), (3, [0, 1])],
+        initUses := [.call (0, 1)],
+        imp := none, fnUses := [.call (0, 1), .var (0, 2), .call (4, 78), .var (0, 3), .var (0, 4), .var (0, 5), .call (0, 0), .call (1, 1), .var (1, 2), .var (1, 3), .var (1, 4), .var (1, 5), .call (1, 0), .call (2, 1), .var (2, 2), .var (2, 3), .var (2, 4), .var (2, 5), .call (2, 0), .call (3, 1), .var (3, 2), .var (3, 3), .var (3, 4), .var (3, 5), .call (3, 0), .explicitImport 0, .call (4, 79), .explicitImport 1, .call (4, 83), .call (4, 84), .call (4, 85), .call (4, 86), .call (4, 87), .call (4, 88), .call (4, 89), .call (5, 7), .call (4, 90), .call (5, 8), .call (5, 0), .call (5, 2), .call (5, 4), .call (5, 1), .call (5, 6), .call (5, 5), .call (5, 3), .call (6, 5), .call (6, 1), .call (6, 2), .call (6, 0), .call (6, 6), .call (6, 3), .call (6, 7), .call (6, 4), .call (6, 8), .call (7, 3), .call (7, 0), .call (7, 1), .call (7, 7), .call (7, 2), .call (7, 4), .call (7, 5), .call (7, 6), .call (4, 80), .call (4, 91), .call (4, 81), .call (4, 82)], intrinsics := false }] }]
 
 end LlgoVerif.Gen.C19
